@@ -140,6 +140,13 @@ def gen_docs(run):
     rng = run.rng
     n = 5000 if run.tier == "quick" else 40000
     docs = []
+    # minimised past failures first (corpus/C02/*.json: {"doc": grammar document, "lang": ...}), in every spelling variant drawn
+    cdir = os.path.join(core.VERIF, "corpus", "C02")
+    for fn in sorted(os.listdir(cdir)) if os.path.isdir(cdir) else []:
+        if fn.endswith(".json"):
+            with open(os.path.join(cdir, fn)) as fh:
+                c = json.load(fh)
+            docs.append({"id": "corpus:" + fn, "doc": c["doc"], "raw": G.serialise(_FixedRng(), c["doc"]), "lang": c.get("lang", "en")})
     for i in range(n):
         g = G.Gen(rng, rng.choice([1, 2, 4, 8] if run.tier == "quick" else [1, 2, 4, 8, 16]))
         d = g.doc()
@@ -165,6 +172,9 @@ def red_inline(inl):
     """one-step reductions of an inline list (never to the empty list): drop an element, replace a span / link / ref by its
     body, reduce inside an element"""
     inl = list(inl)
+    for w in (2, 3, 4):                                   # coarse steps first: keep only a window of w elements
+        for k in range(len(inl) - w + 1 if len(inl) > w + 1 else 0):
+            yield inl[k:k + w]
     for k, e in enumerate(inl):
         if len(inl) > 1:
             yield inl[:k] + inl[k + 1:]
@@ -184,12 +194,18 @@ def red_block(b):
             yield ("h", b[1], r)
     elif k in ("p", "pre"):
         for j, ln in enumerate(b[1]):
+            if len(b[1]) > 2:
+                yield (k, [ln])
             if len(b[1]) > 1:
                 yield (k, b[1][:j] + b[1][j + 1:])
             for r in red_inline(ln):
                 yield (k, b[1][:j] + [r] + b[1][j + 1:])
     elif k == "list":
         for j, (pfx, inl, d) in enumerate(b[1]):
+            if len(b[1]) > 2:
+                yield (k, [b[1][j]])
+                if j + 1 < len(b[1]):
+                    yield (k, b[1][j:j + 2])
             if len(b[1]) > 1:
                 yield (k, b[1][:j] + b[1][j + 1:])
             for r in red_inline(inl):
@@ -212,6 +228,9 @@ def red_block(b):
 
 def red_blocks(blocks):
     blocks = list(blocks)
+    for w in (1, 2, 3):                                   # coarse steps first: keep only a window of w blocks
+        for i in range(len(blocks) - w + 1 if len(blocks) > w + 1 else 0):
+            yield blocks[i:i + w]
     for i, b in enumerate(blocks):
         if len(blocks) > 1:
             yield blocks[:i] + blocks[i + 1:]
@@ -266,7 +285,7 @@ def shrink(src, case):
         if not cands:
             break
         cands.sort(key=lambda c: len(c["raw"]))
-        cands = cands[:400]
+        cands = cands[:1500]
         res = run_impl(src, [{"id": c["id"], "raw": c["raw"], "lang": c["lang"]} for c in cands])
         nxt = None
         for c in cands:
@@ -402,7 +421,7 @@ def proofs(run, src, docs):
         except ValueError:
             got = o
         if got != w:
-            dis.append("denote(doc %d): extracted %s, mirror %s" % (did, str(o)[:200], json.dumps(w)[:200]))
+            dis.append("denote(doc %s): extracted %s, mirror %s" % (did, str(o)[:200], json.dumps(w)[:200]))
     if len(out) != len(want):
         dis.append("driver returned %d lines for %d documents" % (len(out), len(want)))
     run.tie("denote: Python mirror (the search oracle) vs extracted Gallina denote, same documents", len(want), dis)
